@@ -15,6 +15,23 @@ def fuzz(pkg, run, t="45s"):
     return {"pkg": pkg, "run": run, "kind": "fuzz", "tiers": ("thorough",), "fuzztime": {"thorough": t}}
 
 CHECKS = {
+    "C02": {
+        "level": "exploration",
+        "assumptions": ["server identity is (scheme, host, path) as the property's anchors state", "racing administration is sampled on real goroutines (sound consequence only)"],
+        "jobs": [
+            {"pkg": "props/c02", "run": "^TestC02_Regression$", "kind": "plain"},
+            rapid("props/c02", "^TestC02_PoolMembership$", 3000, 30000, shards_t=10),
+            rapid("props/c02", "^TestC02_RacingAdmin$", 60, 600, shards_t=4, race=True),
+        ],
+    },
+    "C01": {
+        "level": "exploration",
+        "assumptions": ["roundrobin.SetDefaultWeight is left at its default (1)", "concurrent-caller schedules are sampled by the Go scheduler, not enumerated"],
+        "jobs": [
+            rapid("props/c01", "^TestC01_Windows$", 1500, 6000, shards_t=12),
+            rapid("props/c01", "^TestC01_Concurrent$", 300, 2000, shards_t=4, race=True),
+        ],
+    },
     "C17": {
         "level": "exploration",
         "assumptions": ["all oxy time goes through internal/holsterv4/clock (frozen by the harness)", "the two-sided bracket [(N-1)r, Nr) admits every slot alignment a correct implementation may choose"],
@@ -35,6 +52,16 @@ CHECKS = {
 
 # Texts for MANIFEST.json (level text, trusted base, technique) per claimed property.
 MANIFEST_TEXT = {
+    "C02": {
+        "level": "Model-based state machine: generated add/update/remove/request/rotation histories (<=30 steps) over a URL alphabet built for identity collisions, run against RoundRobin and Rebalancer(RoundRobin), with and without sticky sessions and with downstream handlers that rewrite the request URL; a reference map keyed by (scheme,host,path) is compared with Servers()/ServerWeight()/selections after every step. A second generated program races administration with requests on real goroutines and checks the sound consequence (a server removed before a request started is never selected). Exploration of bounded histories; racing schedules are sampled.",
+        "note": "Trusts the reference model (ordered map) and net/url parsing of the generated spellings; the rebalancer is given a never-ready meter so that configured weights stay observable.",
+        "technique": "stateful model-based property testing (rapid) with a reference map; sampled racing schedules under the race detector",
+    },
+    "C01": {
+        "level": "Generated pools (1-6 servers, weights incl. zeros, common factors, 1 vs 2^k up to 4096/65535) reached through generated histories of add/re-weight/remove with selections in between, then every window of W=sum/gcd consecutive selections over 2W..3W selections from a generated offset is checked for exact counts w_i/g (oracle computed from the weights alone, no reference implementation). Concurrent callers (2-16 goroutines, race build): exact multiset over k*W selections. Exploration: weight vectors and histories are sampled; interleavings of concurrent callers are sampled by the scheduler.",
+        "note": "Trusts only gcd arithmetic in the oracle; rotations longer than the tier cap (20k/200k selections) are checked for one rotation instead of all offsets.",
+        "technique": "property-based testing (rapid): generated histories + sliding-window exact-count invariant; race-detector build for the concurrent clause",
+    },
     "C17": {
         "level": "Model-based property test: generated histories of increments, reads and clock advances (sub-resolution steps to multi-window gaps) for generated bucket counts and whole, fractional and ns-granular resolutions, under a frozen clock, compared at every read with a reference list of all increments through the two-sided window bracket of the statement (exact integer arithmetic). Exploration of bounded histories (<= 60 operations), not a proof.",
         "note": "Trusts the frozen clock provider (internal/holsterv4/clock) and that the counters read time only through it.",
